@@ -32,7 +32,8 @@ RULE = ("convolutions of tables of 1..4 dims (order 0..5 in the convolved dimens
         "spacing, wider than the whole table), any dimension index, both entry points, both branches of the lower-extent rule; evaluation points: interior, both margins, "
         "knots and their float neighbours, last knot. non-trivial = kernel not the centred unit box on a uniform grid with constant coefficients; distinct by (orders, knots, kernel, dim, coefficient hash)")
 
-KIND_KERNEL = ["symmetric", "asymmetric", "aligned", "narrow", "wide", "huge", "positive", "negative"]
+KIND_KERNEL = ["symmetric", "symmetric", "asymmetric", "asymmetric", "aligned", "aligned", "narrow", "wide", "wide", "huge", "positive", "negative"]
+CLASSIFY_CAP = 240
 
 # ================================================================================================
 class Case:
@@ -432,6 +433,23 @@ def strom_identity_test(case, mout, stats, only_interval=None):
         stats.setdefault("strom_by_order_n", {})[key] = stats.setdefault("strom_by_order_n", {}).get(key, 0) + 1
     return fails
 
+def _verdict_job(k):
+    items, probes, outs, impl_all = _JOB["classify"]
+    n = len(items)
+    c, cid, xs = items[k]
+    p, l, full = probes[k]
+    mo_q = outs[k].get("cl%d" % k)
+    mo_f = outs[n + k].get("cl%d" % (n + k))
+    io = impl_all.get(cid)
+    st = {}
+    if mo_q is None or mo_f is None or io is None:
+        return "unknown", st
+    same = all(mo_f.get(key) == v or nanlist_equal(v, mo_f.get(key, "")) for key, v in io.items() if not key.startswith("_"))
+    if not same:
+        return "impl!=model", st
+    fl = strom_identity_test(p, mo_q, st, only_interval=l)
+    return ("algorithm" if fl else "rounding"), st
+
 def classify_inaccurate(items, impl_all, stats):
     """items: list of (case, cid, xs). For each: is the deviation from the exact integral explained by rounding alone?
     (a) the implementation's output for the case equals model@IEEE bitwise, and (b) the same Gallina term at Qc reproduces the exact
@@ -466,26 +484,25 @@ def classify_inaccurate(items, impl_all, stats):
             return parse_output(p.stdout) if p.returncode == 0 else {}
         except subprocess.TimeoutExpired:
             return {}
-    with ThreadPoolExecutor(max_workers=NCPU) as ex:
-        outs = list(ex.map(one, range(len(allc))))
-    shutil.rmtree(wd, ignore_errors=True)
-    verdicts = []
+    try:
+        with ThreadPoolExecutor(max_workers=NCPU) as ex:
+            outs = list(ex.map(one, range(len(allc))))
+    finally:
+        shutil.rmtree(wd, ignore_errors=True)
     n = len(items)
-    for k, (c, cid, xs) in enumerate(items):
-        p, l, full = probes[k]
-        mo_q = outs[k].get("cl%d" % k)
-        mo_f = outs[n + k].get("cl%d" % (n + k))
-        io = impl_all.get(cid)
-        if mo_q is None or mo_f is None or io is None:
-            verdicts.append("unknown")
-            continue
-        same = all(mo_f.get(key) == v or nanlist_equal(v, mo_f.get(key, "")) for key, v in io.items() if not key.startswith("_"))
-        if not same:
-            verdicts.append("impl!=model")
-            continue
-        fl = strom_identity_test(p, mo_q, stats, only_interval=l)
-        verdicts.append("algorithm" if fl else "rounding")
-        stats["classified_rounding" if not fl else "classified_algorithm"] = stats.get("classified_rounding" if not fl else "classified_algorithm", 0) + 1
+    _JOB["classify"] = (items, probes, outs, impl_all)
+    if n >= 8:
+        import multiprocessing as mp
+        with mp.get_context("fork").Pool(NCPU) as pool:
+            res = pool.map(_verdict_job, range(n), chunksize=1)
+    else:
+        res = [_verdict_job(k) for k in range(n)]
+    verdicts = []
+    for v, st in res:
+        verdicts.append(v)
+        merge_stats(stats, st)
+        if v in ("rounding", "algorithm"):
+            stats["classified_" + v] = stats.get("classified_" + v, 0) + 1
     return verdicts
 
 # ================================================================================================
@@ -678,6 +695,11 @@ def analyse(cases, tag, impl, mod, crashes, out, stats, model=True):
                 p = payload_of(c, cid, impl, mod, {"oracle_verdict": msg})
             out.violation(sig, msg, p)
     # value failures that may be pure rounding (catastrophic cancellation in the double divided differences): classify each
+    # (bounded: beyond CLASSIFY_CAP failing cases per phase the remaining ones are only counted — they come from the same generator stream)
+    if len(pending) > CLASSIFY_CAP:
+        stats["inaccurate_cases_beyond_classification_cap"] = stats.get("inaccurate_cases_beyond_classification_cap", 0) + len(pending) - CLASSIFY_CAP
+        step = len(pending) / float(CLASSIFY_CAP)
+        pending = [pending[int(i * step)] for i in range(CLASSIFY_CAP)]
     verdicts = classify_inaccurate([(c, cid, xs) for c, cid, xs, _, _ in pending], impl, stats)
     for (c, cid, xs, sig, msg), v in zip(pending, verdicts):
         o, n = c.t.orders[c.dim], len(c.kernel)
@@ -804,5 +826,10 @@ def run(info, out):
            "measured_max_error_over_2^-24_sum_abs_terms_by_order_n": stats.get("max_err_over_u_sumabs", {}),
            "strom_identity_TEST": {"cases": stats.get("strom_cases", 0), "exact_point_identities": stats.get("strom_points", 0), "by_order_n": stats.get("strom_by_order_n", {}),
                                    "note": "test, not a theorem: model@Qc transfer matrix expanded in the new basis equals the exact convolution integral as piecewise polynomials"},
+           "known_finding_rounding_cancellation": {"points_classified_as_pure_rounding": stats.get("classified_rounding", 0),
+                                                   "classified_as_algorithm_error": stats.get("classified_algorithm", 0),
+                                                   "by_order_n_kind": stats.get("rounding_cancellation_by_order_n", {}),
+                                                   "failing_cases_beyond_classification_cap": stats.get("inaccurate_cases_beyond_classification_cap", 0)},
+           "skipped_points_C01_D17": stats.get("skipped_C01_D17_points", 0),
            "input_distribution": dist, "search_volume_after_break": searched, "corpus_cases": stats.get("corpus_cases", 0)}
     return cov
